@@ -6,3 +6,10 @@ import TLX.Props.C07
 import TLX.Props.C13
 import TLX.Props.C11
 import TLX.Props.C15
+import TLX.Props.C01
+import TLX.Props.C05
+import TLX.Props.C08
+import TLX.Props.C09
+import TLX.Props.C10
+import TLX.Props.C12
+import TLX.Props.C17
